@@ -32,7 +32,7 @@ func (c *Cas) GetBackend() backends.CacheBackend {
 
 // Write writes a digest for a given reader
 func (c *Cas) Write(ctx context.Context, digest string, reader io.Reader) error {
-	if exists, err := c.Exists(ctx, digest); exists && err == nil {
+	if stored, err := c.isStored(ctx, digest); stored && err == nil {
 		// If the digest already exists, we don't need to write it again
 		return nil
 	}
@@ -75,9 +75,34 @@ func (c *Cas) Exists(ctx context.Context, digest string) (bool, error) {
 		return false, err
 	}
 
-	if exists {
-		// Only cache if the key exists
+	if _, tiered := c.backend.(backends.AllTiersExister); exists && !tiered {
+		// Only cache if the key exists (in every tier, see isStored)
 		c.keyExistsCache.Store(digest, exists)
 	}
 	return exists, nil
+}
+
+// isStored reports whether writing the digest can be skipped. For backends with more than one
+// tier the digest must be present in all of them: a blob that only exists in the local cache
+// still has to be uploaded, otherwise the remote cache ends up with target results that
+// reference blobs it does not hold.
+func (c *Cas) isStored(ctx context.Context, digest string) (bool, error) {
+	tiered, ok := c.backend.(backends.AllTiersExister)
+	if !ok {
+		return c.Exists(ctx, digest)
+	}
+
+	if cached, ok := c.keyExistsCache.Load(digest); ok && cached.(bool) {
+		return true, nil
+	}
+
+	stored, err := tiered.ExistsInAllTiers(ctx, "cas", digest)
+	if err != nil {
+		return false, err
+	}
+
+	if stored {
+		c.keyExistsCache.Store(digest, true)
+	}
+	return stored, nil
 }
